@@ -15,24 +15,31 @@
    (Deterministic), that copies equal their source and share no fate (CopiesEqual), and that Compile changes nothing but memos
    (CompileInert).  `Faulty` seeds the three classic errors (in-place append on the shared collection, _generate returning self,
    memoized keys copied to the child); the check runs them to show the properties reject them.
+   Two "pre-steps" make the histories "memoise or deep-clone the parent first, then derive" reachable in shallow trees: the root may be
+   built with the methods in Pre already applied (in the canonical order Canon), Memo(n) reads the memoized attributes of node n
+   (exported_columns, dialect_options, cache key) WITHOUT compiling it, and Copy(n, "deepclone" | "adapt") clones it through
+   visitors.cloned_traverse / a ClauseAdapter, which rebuilds every collection (Faulty = "clonelist": ... as a mutable collection
+   that the next method extends in place).
    Binding: checks/c03.py replays every edge on real Core / ORM / Query objects. *)
 EXTENDS Integers, Sequences, FiniteSets, TLC, Json
-CONSTANTS Kind,        \* "select" | "orm" | "query" | "insert" | "update" | "delete"
+CONSTANTS Kind,        \* "select" | "compound" | "orm" | "query" | "insert" | "update" | "delete"
+          Pre,         \* methods already applied to the root statement (in the order of Canon)
           Methods,     \* generative methods available in this run (subset of those applicable to Kind)
-          Hows,        \* copy operations: subset of {"clone", "copy", "deepclone", "pickle"}
+          Hows,        \* copy operations: subset of {"clone", "copy", "deepclone", "adapt", "pickle"}
+          Memos,       \* TRUE: Memo(n) is an action
           Dialects,    \* dialect names
           MaxNodes, MaxRepeat, MaxDepth,
-          Faulty       \* "none" | "inplace" | "self" | "keepmemo"
+          Faulty       \* "none" | "inplace" | "self" | "keepmemo" | "clonelist"
 VARIABLES st, last
 vars == <<st, last>>
 
 \* attribute a method writes, and whether it appends to or replaces the collection
 Attr(m) == CASE m \in {"where", "wherein", "having"} -> "where"
              [] m \in {"join", "outerjoin"} -> "joins"
-             [] m \in {"order", "group"} -> "order"
-             [] m \in {"limit", "offset", "distinct", "prefix", "execopt", "label_style"} -> "misc"
+             [] m \in {"order", "order2", "group"} -> "order"
+             [] m \in {"limit", "offset", "distinct", "prefix", "execopt", "label_style", "dialectopt", "dialectopt2"} -> "misc"
              [] m \in {"only", "addcol"} -> "cols"
-             [] m \in {"values", "values2"} -> "values"
+             [] m \in {"values", "values2", "mvalues", "mvalues2"} -> "values"
              [] m \in {"returning", "returning2"} -> "returning"
              [] m \in {"options", "options2"} -> "options"
 Replaces(m) == m = "only"
@@ -41,14 +48,19 @@ Applicable(kind) ==
    CASE kind \in {"select", "orm"} -> {"where", "wherein", "having", "join", "outerjoin", "order", "group", "limit", "offset", "distinct", "prefix",
                                        "execopt", "label_style", "only", "addcol"} \cup (IF kind = "orm" THEN {"options", "options2"} ELSE {})
      [] kind = "query" -> {"where", "wherein", "join", "outerjoin", "order", "group", "limit", "offset", "distinct", "only", "addcol", "options", "options2", "execopt"}
-     [] kind = "insert" -> {"values", "values2", "returning", "returning2", "prefix", "execopt"}
-     [] kind = "update" -> {"where", "wherein", "values", "values2", "returning", "returning2", "prefix", "execopt"}
-     [] kind = "delete" -> {"where", "wherein", "returning", "returning2", "prefix", "execopt"}
-ASSUME Methods \subseteq Applicable(Kind)
+     [] kind = "compound" -> {"order", "order2", "group", "limit", "offset", "execopt"}
+     [] kind = "insert" -> {"values", "values2", "mvalues", "mvalues2", "returning", "returning2", "prefix", "execopt"}
+     [] kind = "update" -> {"where", "wherein", "values", "values2", "returning", "returning2", "prefix", "execopt", "dialectopt", "dialectopt2"}
+     [] kind = "delete" -> {"where", "wherein", "returning", "returning2", "prefix", "execopt", "dialectopt", "dialectopt2"}
+ASSUME Methods \cup Pre \subseteq Applicable(Kind)
+\* the order in which the methods of Pre are applied when the root is built
+Canon == <<"values", "mvalues", "values2", "mvalues2", "where", "wherein", "having", "join", "outerjoin", "order", "order2", "group", "limit", "offset",
+           "distinct", "prefix", "execopt", "label_style", "only", "addcol", "returning", "returning2", "options", "options2", "dialectopt", "dialectopt2">>
+RootDescr == SelectSeq(Canon, LAMBDA m : m \in Pre)
 
 \* ---------- abstract layer ----------
 RECURSIVE Descr(_, _)
-Descr(nodes, n) == IF nodes[n].par = 0 THEN <<>>
+Descr(nodes, n) == IF nodes[n].par = 0 THEN RootDescr
                    ELSE IF nodes[n].via = "derive" THEN Append(Descr(nodes, nodes[n].par), nodes[n].m)
                    ELSE Descr(nodes, nodes[n].par)
 RECURSIVE Meaning(_)
@@ -65,7 +77,7 @@ NewCells(heap, vals) == \* allocate one cell per attribute holding vals[a]; -> [
    LET order == <<"where", "joins", "order", "misc", "cols", "values", "returning", "options">>
        base == Len(heap)
    IN [heap |-> heap \o [i \in 1..8 |-> vals[order[i]]], cells |-> [a \in Attrs |-> base + (CHOOSE i \in 1..8 : order[i] = a)]]
-InitSt == LET nc == NewCells(<<>>, [a \in Attrs |-> <<>>]) IN
+InitSt == LET nc == NewCells(<<>>, Meaning(RootDescr)) IN
           [nodes |-> << [par |-> 0, via |-> "root", m |-> "-", cells |-> nc.cells, memo |-> <<>>, comp |-> FALSE] >>, heap |-> nc.heap]
 R(s, r) == [st |-> s, ret |-> r]
 \* p.method(...)  ->  new node
@@ -79,7 +91,7 @@ DoDerive(s, p, m) ==
            LET h == Append(s.heap, new)
                par == [s.nodes[p] EXCEPT !.cells[a] = Len(h)]
            IN R([s EXCEPT !.heap = h, !.nodes = Append([@ EXCEPT ![p] = par], [par EXCEPT !.par = p, !.via = "derive", !.m = m, !.comp = FALSE])], "ok")
-      ELSE IF Faulty = "inplace"
+      ELSE IF Faulty = "inplace" \/ (Faulty = "clonelist" /\ s.nodes[p].via \in {"deepclone", "adapt"})
       THEN \* the collection is extended in place: parent and child share the cell
            R([s EXCEPT !.heap[s.nodes[p].cells[a]] = new,
                        !.nodes = Append(@, [par |-> p, via |-> "derive", m |-> m, cells |-> s.nodes[p].cells, memo |-> memo, comp |-> FALSE])], "ok")
@@ -96,6 +108,8 @@ DoCopy(s, p, how) ==
         R([s EXCEPT !.heap = nc.heap,
                     !.nodes = Append(@, [par |-> p, via |-> how, m |-> "-", cells |-> nc.cells, memo |-> <<>>, comp |-> FALSE])], "ok")
 \* compile(dialect): reads the node, memoizes what it derived (cache key, column collections) ON THE NODE, returns the SQL = what it read
+\* reading exported_columns / dialect_options / the cache key: memoizes on the node, compiles nothing
+DoMemo(s, n) == R([s EXCEPT !.nodes[n].memo = << Reads(s, n) >>], "ok")
 DoCompile(s, n, d) == R([s EXCEPT !.nodes[n].memo = << Reads(s, n) >>, !.nodes[n].comp = TRUE], Reads(s, n))
 
 \* ---------- actions ----------
@@ -105,6 +119,8 @@ Step(name, n, x, res) == st' = res.st /\ last' = [a |-> name, n |-> n, x |-> x, 
 \*  would mix two tables named alike - not a meaningful program, excluded)
 \* Query refuses filter()/join()/having()/order_by()/group_by() once LIMIT or OFFSET is set (orm/query.py _no_limit_offset): the call raises and nothing exists
 \* afterwards that did not exist before
+\* (an Insert that mixes the single and the multiple VALUES formats is accepted by values() and refused by every COMPILATION with
+\*  InvalidRequestError: a statement like any other here, whose "SQL" is that error)
 Refused(d, m) == Kind = "query" /\ m \in {"where", "wherein", "join", "outerjoin", "having", "order", "group"}
                     /\ Count(d, "limit") + Count(d, "offset") > 0
 Derive == \E p \in 1..N, m \in Methods : N < MaxNodes /\ st.nodes[p].via # "pickle" /\ Count(Descr(st.nodes, p), m) < MaxRepeat
@@ -113,13 +129,16 @@ Copy == \E p \in 1..N, how \in Hows : N < MaxNodes /\ st.nodes[p].via \notin How
 \* the FIRST compilation of a node is an action (which dialect goes first, and when, relative to derivations and copies, is the
 \* hazard); every later compilation of every compiled node on every dialect is performed by the replay after each step
 Compile == \E n \in 1..N, d \in Dialects : ~st.nodes[n].comp /\ Step("Compile", n, d, DoCompile(st, n, d))
+Memo == Memos /\ \E n \in 1..N : st.nodes[n].memo = <<>> /\ Step("Memo", n, "-", DoMemo(st, n))
 Init == st = InitSt /\ last = [a |-> "init", n |-> 0, x |-> "-", ret |-> "ok"]
-Next == Derive \/ Copy \/ Compile
+Next == Derive \/ Copy \/ Compile \/ Memo
 Spec == Init /\ [][Next]_vars
 \* which dialect compiled a node is not state: the view keeps only "has been compiled"
 View == st
 Depth == TLCGet("level") <= MaxDepth
-Compact(s) == [i \in 1..Len(s.nodes) |-> <<s.nodes[i].par, s.nodes[i].via, s.nodes[i].m, s.nodes[i].comp>>]
+\* (the root prints its pre-applied derivation in place of a method)
+Compact(s) == [i \in 1..Len(s.nodes) |-> <<s.nodes[i].par, s.nodes[i].via, IF s.nodes[i].par = 0 THEN RootDescr ELSE s.nodes[i].m,
+                                            s.nodes[i].comp, s.nodes[i].memo # <<>> >>]
 Slim(l) == [a |-> l.a, n |-> l.n, x |-> l.x, r |-> IF l.a = "Compile" THEN "ok" ELSE l.ret]
 Emit == PrintT(ToJson([from |-> Compact(st), act |-> Slim(last'), to |-> Compact(st')]))
 InitEmit == Init /\ PrintT(ToJson([init |-> Compact(st)]))
@@ -134,7 +153,7 @@ CopiesEqual == \A n \in 1..N : st.nodes[n].via \in Hows => Val(st, n) = Val(st, 
 Deterministic == \A n \in 1..N : Reads(st, n) = Meaning(Descr(st.nodes, n))
 CompileReturnsMeaning == last.a = "Compile" => last.ret = Meaning(Descr(st.nodes, last.n))
 \* clause 3: compilation modifies nothing but memoized data
-CompileInert == [][last'.a = "Compile" => (st'.heap = st.heap /\ \A n \in 1..N : st'.nodes[n].cells = st.nodes[n].cells) /\ Len(st'.nodes) = N]_vars
+CompileInert == [][last'.a \in {"Compile", "Memo"} => (st'.heap = st.heap /\ \A n \in 1..N : st'.nodes[n].cells = st.nodes[n].cells) /\ Len(st'.nodes) = N]_vars
 RefusedChangesNothing == [][(last'.a = "Derive" /\ last'.ret = "InvalidRequestError") => st' = st]_vars
 \* shallow copies never write through shared cells: every cell is written exactly once (when allocated)
 HeapAppendOnly == [][\A i \in 1..Len(st.heap) : st'.heap[i] = st.heap[i]]_vars
